@@ -193,6 +193,23 @@ def c1(repo: Repo) -> RuleResult:
         # the first raise is the range check; further raises (max_bytes) handled below
         r = rs[0]
         got = accept_interval(r, fi.node, var)
+        if got is None:
+            # is the bound applied to some other quantity?
+            other = None
+            for t, truth in facts_at(r, fi.node, skip_raise_siblings=True):
+                for cmpn in ast.walk(t):
+                    if isinstance(cmpn, ast.Compare):
+                        for side in [cmpn.left] + list(cmpn.comparators):
+                            if _const_int(side) is None and src_of(side) != var:
+                                other = side
+            if other is not None:
+                srcs = [src_of(a.value) for a in ast.walk(fi.node) if isinstance(a, ast.Assign) and isinstance(other, ast.Name) and any(isinstance(tg, ast.Name) and tg.id == other.id for tg in a.targets)]
+                if isinstance(other, ast.Name) and srcs == [var]:
+                    got = accept_interval(r, fi.node, other.id)
+                else:
+                    res.inst(part="interval", error=cls, where=qual, accepted=f"bound on {src_of(other)}", documented=str(want))
+                    res.bad(Finding("C1", fi.rel, r.lineno, qual, src_of(_if_of(r)), f"the documented limit on `{var}` is applied to `{src_of(other)}`" + (f" = {srcs[0]}" if len(srcs) == 1 else "") + " instead", witness=example + " (e.g. an extensible message whose fields alone fit but whose 16-bit prefix pushes it over the limit)", tag=f"{cls}:quantity"))
+                    continue
         res.inst(part="interval", error=cls, where=qual, accepted=str(got), documented=str(want))
         if got is None:
             res.unsure(f"C1: {qual}: guard of `raise {cls}` is not a conjunction of bounds on {var}")
@@ -413,6 +430,9 @@ def c1(repo: Repo) -> RuleResult:
                 res.inst(part="converse", where=qualname(n), error=name)
                 if name not in ERROR_CATALOGUE:
                     res.unsure(f"C1: {mod.rel}:{n.lineno} raises {name}, which the constraint catalogue does not know (a new constraint, or a refactoring: extend the catalogue by hand)")
+    for f in res.findings:
+        if not f.part:
+            f.part = "imports" if f.tag.startswith("import:") else "constraints"
     return res
 
 
